@@ -55,6 +55,7 @@ JFrameEnc(e) ==
   /\ (e.kind = "grease" => IsGrease(e.type))
   /\ CASE e.api = "vec" ->
             /\ e.res = "ok" /\ e.size = total /\ OutMatches(e, hdr, plen, e.salt)
+            /\ HasF(e, "rta") /\ e.rta = e.rt      \* the asynchronous reader inverts the encoder too
             /\ IF plen <= MaxPayload
                THEN /\ e.rt.kind = e.kind /\ e.rt.used = total
                     /\ e.rt.sid = (IF e.kind = "wt" THEN e.sid ELSE V(0))
